@@ -2,8 +2,10 @@
 """Regenerate MANIFEST.json from gen/props.py (keeps it valid at all times)."""
 import json, os, sys
 ROOT = os.path.dirname(os.path.dirname(os.path.abspath(__file__)))
-sys.path.insert(0, os.path.join(ROOT, "gen"))
-from props import PROPS, LEVELS, NOT_APPLICABLE
+import glob
+PROPS = {os.path.basename(p)[:-5]: json.load(open(p)) for p in glob.glob(os.path.join(ROOT, "props", "C*.json"))}
+LEVELS = {k: v["level"] for k, v in PROPS.items()}
+NOT_APPLICABLE = json.load(open(os.path.join(ROOT, "props", "not_applicable.json")))
 
 ALL = [f"C{i:02d}" for i in range(1, 19)]
 checks = []
